@@ -178,7 +178,13 @@ class kLeastAbsErrorsCycles(walkmodel.AbstractWalkModelDiGraph):
             self.trusted_edges_for_safety = set(edge for edge in self.G.edges() if flow_attr in self.G.edges[edge] and edge not in not_counted and self.G.edges[edge][flow_attr] >= percentile and self.G.edges[edge][flow_attr] > 0)
             utils.logger.info(f"{__name__}: trusted_edges_for_safety set using using percentile {trusted_edges_for_safety_percentile} = {percentile} to {self.trusted_edges_for_safety}")
 
-        self.edge_error_scaling = dict(error_scaling_internal)      # (a copy: the factors are read again after solve(); later edits of the caller's dict must not reach the model)
+        # (a copy: the factors are read again after solve(); later edits of the caller's dict must not reach the model. Factors of another
+        # real number type - numpy scalars, fractions - are stored as floats: they are multiplied into solver expressions)
+        try:
+            self.edge_error_scaling = {edge: (factor if type(factor) in (int, float) else float(factor)) for edge, factor in dict(error_scaling_internal).items()}
+        except (TypeError, ValueError):
+            utils.logger.error(f"{__name__}: Error scaling factors must be numbers between 0 and 1.")
+            raise ValueError("Error scaling factors must be numbers between 0 and 1.")
         # If the error scaling factor is 0, we ignore the edge
         self.edges_to_ignore |= {edge for edge, factor in self.edge_error_scaling.items() if factor == 0}
 
